@@ -161,6 +161,8 @@ def values_equal(a, b):
         return len(a) == len(b) and all(values_equal(x, y) for x, y in zip(a, b))
     if a is UNIT and b is UNIT:
         return True
+    if a is None and b is None:
+        return True
     from .mirsym.values import Opaque
     if isinstance(a, Opaque) and isinstance(b, Opaque):
         return a.tag == b.tag
